@@ -21,6 +21,7 @@ KEY_ENDARG = "alter_endianness/byte_sex-with-ARM-flag-or-0-or-both/GD_E_ARGUMENT
 KEY_TOSIE = "recode-to-sie/more-than-one-copy-buffer/one-sample-lost-per-buffer"
 KEY_SUBENC = "alter_raw-recode/encoding-other-than-none/temporary-file-closed-with-wrong-codec/data-destroyed"
 KEY_FOFF_OOP = "alter_frameoffset/decrease/out-of-place-encoding/copies-input-instead-of-padding"
+KEY_STALESIZE = "alter_raw/type-widened/same-handle-getdata/stale-sample-size/heap-overflow"
 KEY_SAMEHANDLE = "alter_encoding/from-lzma-or-bzip2/same-handle-read/EBADF"
 GD_REN_DATA = 1
 
@@ -116,7 +117,7 @@ def main():
         ia = len(sc)
         sc += ["get a %d %d 0 %d" % (ta, offa, na), "close", "open %s rw" % d, "get a %d %d 0 %d" % (ta, offa, na), "close"]
         cases.append({"kind": kind, "dir": d, "t": t, "enc": enc, "sex": sex, "off": off, "spf": spf, "comps": comps, "script": sc,
-                      "iop": ia - len(ops), "iafter": ia, "want": wa, "model": model_line, "note": note, "n": n})
+                      "iop": ia - len(ops), "iafter": ia, "want": wa, "model": model_line, "note": note, "n": n, "ta": ta})
 
     types_q = [1, 3, 4, 7, 8, 9, 10, 11] if not chk.thorough else list(range(12))
     # A: gd_alter_encoding with recoding, all ordered pairs
@@ -223,6 +224,8 @@ def main():
         if rc != 0 or len(r) != len(c["script"]):
             if c["kind"] in ("alter_raw-type", "alter_raw-spf") and enc != "none":
                 key = "../" + KEY_SUBENC      # the temporary file's handle is closed by the wrong codec
+            elif c["kind"] == "alter_raw-type" and TSIZE[c["ta"]] > TSIZE[t]:
+                key = "../" + KEY_STALESIZE   # getdata sizes its buffer with the old sample size
             spec_bad.setdefault(("crash/" + key).replace("crash/../", ""), []).append((c, "gdrun died rc=%d after %d of %d lines: %s" % (rc, len(r), len(c["script"]), out[-200:])))
             continue
         before = gdlib.parse_get(r[c["iop"] - 1])
@@ -247,8 +250,6 @@ def main():
             # classification of the recorded defects: the model predicts exactly what the library did
             if c["kind"] == "alter_encoding" and "text" in c["note"] and nonnative and okop:
                 k2 = KEY_TEXT
-            if c["kind"] == "alter_raw-type" and nonnative and enc != "text" and okop and model is not None and a1 and a1[2] == model:
-                k2 = KEY_RETYPE
             if c["kind"] == "alter_endianness" and enc == "text" and not okop and opres.split()[2:] == ["1"]:
                 k2 = KEY_ENDTEXT
             if c["kind"] == "alter_endianness" and not okop and opres.split()[1:] == ["-24", "0"] and "arm" not in "" and c["script"][c["iop"]].split()[2] == "1":
@@ -258,6 +259,10 @@ def main():
                 k2 = KEY_TOSIE
             if c["kind"] in ("alter_raw-type", "alter_raw-spf") and enc != "none" and okop:
                 k2 = KEY_SUBENC
+            if c["kind"] == "alter_raw-type" and enc == "none" and TSIZE[c["ta"]] > TSIZE[t] and okop and not nonnative:
+                k2 = KEY_STALESIZE
+            if c["kind"] == "alter_raw-type" and nonnative and enc != "text" and okop and model is not None and a1 and a1[2] == model:
+                k2 = KEY_RETYPE
             if c["kind"] == "alter_frameoffset" and enc in ("gzip", "bzip2", "lzma") and okop and c["script"][c["iop"]].split()[1] < str(c["off"]):
                 k2 = KEY_FOFF_OOP
             if c["kind"] == "alter_encoding" and enc in ("lzma", "bzip2") and okop and (a1 is None or a1[1] == -5) and a2 and a2[2] == c["want"]:
@@ -270,6 +275,20 @@ def main():
                 nontriv.add((c["kind"], c["note"], t, sex, tuple(c["comps"])))
         if len(chk.cov["samples"]) < 8 and chk.cov["evaluations"] % 97 == 5:
             chk.sample({"kind": c["kind"], "what": c["note"], "type": NAMES[t], "endian": sex, "frameoffset": c["off"], "spf": c["spf"], "n": c["n"], "op": c["script"][c["iop"]], "result": opres})
+    if chk.thorough:
+        try:
+            impl_a = vlib.build_impl("asan", gdlib.HOOKS + " -fsanitize-recover=all")
+            exe_a = vlib.build_harness(impl_a, os.path.join(vlib.VERIF, "harness/C04/gdrun.c"))
+            d = os.path.join(root, "asan-w"); os.mkdir(d)
+            open(os.path.join(d, "format"), "w").write("/ENCODING none\na RAW UINT8 1\n")
+            vals = " ".join("%x" % (i % 200) for i in range(40))
+            rc, out = vlib.sh([exe_a], inp=("open %s rw\nput a 1 0 0 40 %s\nclose\nopen %s rw\nalter_raw a 7 0 1\nget a 7 0 0 42\nclose\n" % (d, vals, d)).encode(), timeout=300)
+            chk.cov["evaluations"] += 1
+            if "heap-buffer-overflow" in out:
+                chk.violation(KEY_STALESIZE, "gd_alter_raw UINT8 -> UINT64 (recode) then gd_getdata through the same handle: AddressSanitizer heap-buffer-overflow in _GD_RawRead "
+                              "(buffer sized with the old e->u.raw.size)", {"kind": "impl-vs-spec", "asan": out[out.find("ERROR: AddressSanitizer"):][:1500]})
+        except vlib.BuildError as e:
+            chk.notes.append("asan build failed: " + str(e)[:200])
     found_any = False
     if os.environ.get("VERIF_DEBUG"):
         for key, l in sorted(spec_bad.items()):
